@@ -528,7 +528,7 @@ def gen_case(rng, tag, length, raise_p=0.5, soup=False):
             ops.append("ap.del %d %s" % (k, n))
             if n in have:
                 sh.l[k] = [e for e in sh.l[k] if e[0] != n]
-        elif r < 0.96:
+        elif r < 0.94:
             ns = some_names(k)
             ops.append("ap.dels %d %s" % (k, " ".join(ns)))
             for n in ns:
@@ -536,9 +536,14 @@ def gen_case(rng, tag, length, raise_p=0.5, soup=False):
                     sh.l[k] = [e for e in sh.l[k] if e[0] != n]
                 else:
                     break
-        else:
+        elif r < 0.975:
             ops.append("ap.reset %d" % k)
             sh.l[k] = []
+        else:
+            j = apreg()
+            ops.append("%s %d %d" % (rng.choice(["ap.copy", "ap.assign"]), k, j))
+            sh.l[j] = [list(e) for e in sh.l[k]]
+            sh.pre[j] = sh.pre[k]
 
     def op_ns():
         k = apreg()
@@ -712,6 +717,13 @@ def directed_owner(rng):
             for i in range(6):
                 ops.append("ap.at 5 %d" % i)
             ops.append("ap.size 5")
+            # a copy of the owner (copy constructor, then assignment back): independent, same prefix
+            ops.append("ap.copy 5 4")
+            ops.append("ap.setv 4 %s %d" % (shorts[1], inside(rng, cons[1])))
+            ops.append("ap.getv 5 %s" % shorts[1])
+            ops.append("ap.setv 5 %s %d" % (shorts[2], inside(rng, cons[2])))
+            ops.append("ap.assign 5 4")
+            ops.append("ap.names 4")
             ops.append("ap.deli 5 %d" % rng.randrange(6))
             ops.append("ap.del 5 %s%s" % (pre, shorts[1]))
             ops.append("ap.dels 5 %s%s zz %s" % (pre, shorts[2], shorts[0]))
@@ -980,8 +992,14 @@ def coverage_extra(cases, answers):
     shared = 0
     total = 0
     per_op = {}
+    ante = {}
+
+    def hit(key):
+        ante[key] = ante.get(key, 0) + 1
+
     for c, a in zip(cases, answers):
         prev = [[] for _ in range(NREG)]
+        prev_pre = [""] * NREG
         raised_before = False
         k = 0
         for line in c[1:]:
@@ -1042,9 +1060,52 @@ def coverage_extra(cases, answers):
                         cl = _culprit(op, tgt, src)
                         if cl:
                             bump("culprit_" + cl)
+            # --- how often the antecedent of a guarded clause was true (audit F4)
+            uniq = [len(set(e[0] for e in es)) == len(es) for es in prev]
+            if not all(uniq):
+                hit("ops_executed_while_some_register_has_duplicated_names")
+            if kk is not None and kk < NREG:
+                if op == "ap.ns":
+                    hit("ap.ns")
+                    others = set(e[3] for j, es in enumerate(prev) if j != kk for e in es)
+                    guard = all(e[0].startswith(prev_pre[kk]) for e in prev[kk]) and not any(e[3] in others for e in prev[kk])
+                    if guard and all(uniq):
+                        hit("ap.ns: nsGuard true (names_unique_namespace_partial judged)")
+                    if st is not None and not all(len(set(e[0] for e in es)) == len(es) for es in st) and all(uniq):
+                        hit("ap.ns: names duplicated by the call (known finding)")
+                if op in ("subi", "shsubi", "delis"):
+                    idx = t[3:] if op != "delis" else t[2:]
+                    if len(set(idx)) == len(idx) and uniq[kk]:
+                        hit(op + ": repeated-free indices, unique names (exactness judged)")
+                    else:
+                        hit(op + ": repeated index or duplicated names (only the general clauses judged)")
+                if op in ("subn", "shsubn", "dels", "ap.dels"):
+                    ns = t[3:] if op in ("subn", "shsubn", "dels") else t[2:]
+                    hit(op + (": repeated-free names" if len(set(ns)) == len(ns) else ": repeated name"))
+                if op in ("ap.matchvs", "matchvs", "matchvs0", "setvs", "ap.setvs", "testvs", "setps", "matchps") and len(t) > 2:
+                    try:
+                        jj = int(t[2])
+                    except ValueError:
+                        jj = None
+                    if jj is not None and jj < NREG:
+                        if not uniq[jj]:
+                            hit(op + ": source names duplicated (exactness not judged)")
+                        elif is_exc:
+                            hit(op + ": raised")
+                        elif op == "ap.matchvs":
+                            fired = r.split(" ;")[1].strip() if len(r.split(" ;")) > 1 else "-"
+                            hit("ap.matchvs: succeeded, " + ("nothing to notify" if fired == "-" else "non-empty notification judged"))
+                        else:
+                            hit(op + ": succeeded, exact effect judged")
             if st is not None:
                 prev = st
+                segs = r.split(" ;")[2:]
+                for j, sg in enumerate(segs):
+                    for tok in sg.split():
+                        if tok.startswith("pre="):
+                            prev_pre[j] = "" if tok[4:] == "-" else tok[4:]
             raised_before = raised_before or is_exc
     return {"raised_by_kind": kinds, "list_size_histogram": {str(k): v for k, v in sorted(sizes.items())},
             "answers_with_shared_objects_fraction": round(shared / total, 4) if total else 0.0,
-            "op_states": {k: per_op[k] for k in sorted(per_op)}}
+            "op_states": {k: per_op[k] for k in sorted(per_op)},
+            "clause_antecedents": {k: ante[k] for k in sorted(ante)}}
